@@ -73,7 +73,7 @@ def stream_fmt(ctx, athlib):
     for x, p in reqs:
         whole, frac, exact = TC.residue_texts(x)
         if not exact: inexact += 1
-        t0 = '%.9f' % frac
+        t0 = '%.9f' % (frac + 0.0)      # the residue as a decimal number: a zero has no sign
         hints.append((whole, frac, t0))
         lines.append(TC.line_fmt(whole, t0, p))
     # the hint is checked on its own: fixed notation and within 5e-10 of the exact residue
